@@ -24,7 +24,7 @@ OPS = ["set_value", "unset_value", "reveal_value", "unreveal_value", "set_values
 
 def bounds_text(tier):
     if tier == "quick":
-        return "n=1,2 all flag patterns; n=3 all 128 patterns with the empty coalition known + 16 with it unknown; n=4 8 seeded; every operation x every coalition / subset (<=2) argument"
+        return "n=1,2 all flag patterns; n=3 all 128 patterns with the empty coalition known + 16 with it unknown; n=4 8 seeded; every operation x every coalition / list argument (singletons, pairs in both orders, unsorted triples)"
     return "n=1,2 all patterns; n=3 all 256 patterns; n=4 64 seeded patterns; every operation x every coalition / subset (<=2) argument"
 
 
